@@ -442,6 +442,20 @@ def run_case(ctx):
         ctx.check("nll-value", abs(got - exp) <= 1e-9 * max(1, abs(exp)), lambda: f"nll {got!r} vs fold {exp!r}")
         j_ab, j_ba = jsd(a, b, pe), jsd(b, a, pe)
         ctx.check("js-symmetric", abs(j_ab - j_ba) <= 1e-12 * max(1, abs(j_ab)), lambda: f"jsd ab={j_ab!r} ba={j_ba!r}")
+        # the same laws through the public entry point that dispatches to a distance measure
+        from orquestra.quantum.distributions import evaluate_distribution_distance as edd
+
+        e_ab = edd(a, b, compute_mmd, distance_measure_parameters=p)
+        e_ba = edd(b, a, compute_mmd, distance_measure_parameters=p)
+        e_aa = edd(a, a, compute_mmd, distance_measure_parameters=p)
+        ctx.check("mmd-laws", abs(e_ab - e_ba) <= 1e-12 and e_ab >= -1e-12 and abs(e_aa) <= 1e-15 and abs(e_ab - m_ab) <= 1e-12,
+                  lambda: f"evaluate_distribution_distance(mmd): ab={e_ab!r} ba={e_ba!r} aa={e_aa!r}, direct ab={m_ab!r}")
+        e_nll = edd(a, b, nll, distance_measure_parameters=pe)
+        ctx.check("nll-value", abs(e_nll - exp) <= 1e-9 * max(1, abs(exp)),
+                  lambda: f"evaluate_distribution_distance(nll) {e_nll!r} vs fold {exp!r}")
+        ej_ab, ej_ba = edd(a, b, jsd, distance_measure_parameters=pe), edd(b, a, jsd, distance_measure_parameters=pe)
+        ctx.check("js-symmetric", abs(ej_ab - ej_ba) <= 1e-12 * max(1, abs(ej_ab)) and abs(ej_ab - j_ab) <= 1e-12 * max(1, abs(j_ab)),
+                  lambda: f"evaluate_distribution_distance(jsd) ab={ej_ab!r} ba={ej_ba!r} direct={j_ab!r}")
         return
     if cls == "saveload":
         global _TMP
